@@ -564,3 +564,7 @@ HARMLESS += [
 MUTANTS += [
  {"id": "c04-taylor-float-exponent", "prop": "C04", "file": "adcgen/intermediate_states.py", "old": "        f = (1 + x) ** Rational(-1, 2)\n", "new": "        f = (1 + x) ** -0.5\n"},
 ]
+MUTANTS += [
+ {"id": "c07-compare-keeps-annihilating-sub", "prop": "C07", "file": _SI, "old": "            if sub_other_term is S.Zero and other_term.sympy is not S.Zero:\n                continue\n", "new": ""},
+ {"id": "c07-compare-accepts-sums", "prop": "C07", "file": _SI, "old": "            if not isinstance(term.sympy - sub_other_term, Add):\n                return sub", "new": "            if isinstance(term.sympy - sub_other_term, Add):\n                return sub"},
+]
